@@ -67,12 +67,19 @@ InDomain(e, hp) ==
     [] e.act = "eval" -> Dom_eval(f, a)
     [] OTHER -> FALSE
 
+Decidable(e, hp) ==
+  LET f == hp[e.src] a == e.args IN
+  CASE e.act = "apply" -> Dec_apply(f, a)
+    [] e.act = "arith" -> Dec_arith(Files(hp, <<e.src>> \o e.others), a)
+    [] e.act = "eval" -> Dec_eval(f, a)
+    [] OTHER -> TRUE
+
 ResultDiff(e, hp, g) ==
   LET f == hp[e.src] a == e.args IN
   CASE e.act = "copy" -> FileDiff(g, Exp_copy(f, a), "full")
     [] e.act = "slice" -> FileDiff(g, Exp_slice(f, a), "full")
     [] e.act = "apply" -> FileDiff(g, Exp_apply(f, a), "val")
-    [] e.act = "stack" -> FileDiff(g, Exp_stack(Files(hp, <<e.src>> \o e.others), a), "fullfv")
+    [] e.act = "stack" -> FileDiff(g, Exp_stack(Files(hp, <<e.src>> \o e.others), a), "full")
     [] e.act = "subset" -> FileDiff(g, Exp_subset(f, a), "full")
     [] e.act = "renamevar" -> FileDiff(g, Exp_renamevar(f, a), "full")
     [] e.act = "renamedim" -> FileDiff(g, Exp_renamedim(f, a), "full")
@@ -116,7 +123,7 @@ TStep ==
              /\ ChkS(tr, l + 1, "C01 " \o e.act \o ": result not well-formed", IF EnfWF THEN WFDiag(g) ELSE "")
              /\ ChkT(tr, l + 1, "C01 " \o e.act \o ": unlimited flag of a surviving dimension changed",
                      EnfWF => UnlimitedKept(heap[e.src], g))
-             /\ ((EnfVAL /\ EnfProp \in {"*", e.prop} /\ InDomain(e, heap)) =>
+             /\ ((EnfVAL /\ EnfProp \in {"*", e.prop} /\ InDomain(e, heap) /\ Decidable(e, heap)) =>
                    ChkS(tr, l + 1, e.prop \o " " \o e.act \o ": result differs from the specified result",
                         ResultDiff(e, heap, g)))
      /\ (l + 1 = Len(tr.steps) => TrAccept(tr))
